@@ -319,7 +319,7 @@ MANIFEST_TEXT = {
     "C04": {
         "text": "Fault enumeration over the real MAC validator and openings: honest executions over three fields and the real pseudonym function must validate and open exactly x*y / g^(1/(k+x)) on all helpers; then the same seed is replayed with one helper adding an error to one field element (or flipping a bit) of one chunk it sends, at a site drawn from the honest run's inventory stratified over every step of upgrade, multiply, duplicate multiply, propagate-u/w, reveal-r, check-zero and the opening. Violation iff both honest helpers validate and open a value different from the true one (32-bit and 255-bit fields); for the 5-bit field the acceptance rate over the batch must stay below 0.1 plus a 6.5-sigma margin. Sites are sampled. Beyond blind rewriting the corrupt helper also mounts multi-message attacks: the same error in a product share and in the copy it opens, a lane-cancelling error on 16-lane shares, and two adaptive ones in which it reacts to what has been opened to it - 'known r' (error e / r*e with an r it has already seen) and 'rush' (it is late in the check-zero step and cancels r*T once its neighbour has opened its shares; this one succeeds on the unchanged tree and is recorded as a known finding). The workloads also run on the multi-threading build.",
         "design_ref": "DESIGN.md section 4, C04",
-        "note": "one known finding (a late, rushing helper defeats the check-zero step on the unchanged tree), see known_findings.json; soundness error 1/|F| per check is assumed for the large fields (2^-32, 2^-252); the Fp31 rule has a one-sided false-alarm probability < 1e-9 for any seed",
+        "note": "two known findings (a late, rushing helper defeats the check-zero step; a helper that withholds its product shares gets r opened to it - both on the unchanged tree), see known_findings.json; soundness error 1/|F| per check is assumed for the large fields (2^-32, 2^-252); the Fp31 rule has a one-sided false-alarm probability < 1e-9 for any seed",
         "technique": "deterministic simulation: honest run + same-seed replay with single-site additive/bit error, channel inventory stratified by protocol step",
     },
     "C03": {
